@@ -76,7 +76,7 @@ def run_reader(repo, units):
 
     def hook(ip, node, callee, args, kwargs):
         if isinstance(callee, BoundMethod) and callee.fi.name == "_get_value" and callee.fi.cls.short != ACC:
-            return Affine(1, 0)
+            return Affine.var()
         return NotImplemented
 
     interp.call_hook = hook
@@ -97,7 +97,7 @@ def run_writer(repo, method, units):
 
     interp.call_hook = hook
     obj = _make_accessor(repo, interp, cls, units)
-    interp.call(repo.own_method(ACC, method), obj, [Affine(1, 0)])
+    interp.call(repo.own_method(ACC, method), obj, [Affine.var()])
     if len(got) != 1:
         raise Undecided(f"{method} delegated {len(got)} times")
     return got[0]
@@ -231,6 +231,32 @@ def check(ctx):
         a, b = writers.get(("_set_value", u)), writers.get(("async_set_value", u))
         if isinstance(a, Affine) and isinstance(b, Affine):
             ctx.ob("R1", f"writers-agree::{u}", (a.a, a.b, a.truncated) == (b.a, b.b, b.truncated), f"blocking and awaitable temperature writers differ in unit {u}: {a!r} vs {b!r}")
+    # R6 exact read-back in IEEE doubles, exhaustive: reader and writers were evaluated on a symbolic word / value; the
+    # float program each of them performs (same operations, same order, same constants) is now run on every one of the
+    # 65 536 raw words:  writer(reader(raw)) == raw
+    ctx.rule("R6", "exact read-back in floating point: for every raw word 0..65535, both units and both writers, writing the value the reader presents for that word yields the same word again (the readers'/writers' own float programs, extracted by the interpreter, evaluated exhaustively)")
+    n_rb = 0
+    for method in ("_set_value", "async_set_value"):
+        for u in ("C", "F"):
+            w, rd = writers.get((method, u)), readers.get(u)
+            if not (isinstance(w, Affine) and isinstance(rd, Affine)) or w.fn is None or rd.fn is None:
+                ctx.error(f"{ACC}.{method} ({u}): float program not available (value did not flow from the symbolic input)")
+                continue
+            bad = []
+            for raw in range(65536):
+                try:
+                    back = w.fn(rd.fn(raw))
+                except Exception as ex:  # noqa: BLE001
+                    back = f"raises {ex}"
+                if back != raw:
+                    bad.append((raw, back))
+            n_rb += 65536
+            inrange = [x for x in bad if 270 <= x[0] <= 720]
+            ctx.ob("R6", f"{method}::{u}::exact-read-back", not bad,
+                   f"{ACC}.{method} in unit {u}: {len(bad)} of the 65 536 representable words do not read back exactly in IEEE doubles "
+                   f"({len(inrange)} inside the heater range), e.g. word {bad[0][0] if bad else ''} is presented as {rd.fn(bad[0][0]) if bad else ''} and written back as {bad[0][1] if bad else ''}",
+                   repo.own_method(ACC, method).loc, sample={"rule": "R6", "writer": method, "unit": u, "words": 65536, "mismatches": len(bad)})
+    ctx.floor("R6", "word round trips evaluated", n_rb, 4 * 65536)
 
     # ---- R2 -------------------------------------------------------------------------------
     interp = Interp(repo)
@@ -243,7 +269,9 @@ def check(ctx):
             try:
                 interp.steps = 0
                 vals[(u, member)] = interp.getattr(obj, member)
-            except (PyRaise, Undecided) as e:
+            except PyRaise as e:
+                vals[(u, member)] = f"raises {e.what}"
+            except Undecided as e:
                 raise AnalysisError(f"GeckoWaterHeater.{member}: {e}")
     exp = {"C": ("TEMP_CELCIUS", "MIN_TEMP_C", "MAX_TEMP_C"), "F": ("TEMP_FARENHEIGHT", "MIN_TEMP_F", "MAX_TEMP_F"), "Unknown": ("TEMP_FARENHEIGHT", "MIN_TEMP_F", "MAX_TEMP_F")}
     for u in ("C", "F", "Unknown"):
@@ -270,7 +298,7 @@ def check(ctx):
         def hook(ip, node, callee, args, kwargs, method=method):
             if isinstance(callee, BoundMethod) and callee.fi.cls.short != ACC:
                 if callee.fi.name == "_get_value":
-                    return Affine(1, 0)
+                    return Affine.var()
                 if callee.fi.name == method:
                     got.append(args[0])
                     return None
@@ -286,7 +314,7 @@ def check(ctx):
                 units_item.attrs["value"] = u
                 got.clear()
                 interp.steps = 0
-                r = interp.call(repo.own_method(ACC, method), obj, [None] if method == "_get_value" else [Affine(1, 0)])
+                r = interp.call(repo.own_method(ACC, method), obj, [None] if method == "_get_value" else [Affine.var()])
                 res.append(r if method == "_get_value" else (got[0] if got else None))
         except (PyRaise, Undecided) as e:
             raise AnalysisError(f"{ACC}.{method} (live unit): {e}")
@@ -354,4 +382,4 @@ def check(ctx):
     check_heater_setters(ctx, repo)
     ctx.exhaustive = False
     ctx.assume("int() truncation and float arithmetic are monotone; floats in the source are read as exact decimals")
-    ctx.note("NOT decided: exact read-back of every representable word through IEEE doubles, and 'within one device step' for other values (numerical; a design-round probe found int(raw/18.0*18.0)==raw for all 65 536 words, but that is a dynamic fact, not claimed here).")
+    ctx.note("NOT decided: 'within one device step' for values the device cannot represent (numerical).")
